@@ -23,9 +23,11 @@ import (
 	"errors"
 	"fmt"
 	"hash/fnv"
+	"math"
 	"os"
 	"os/exec"
 	"path/filepath"
+	"runtime"
 	"runtime/debug"
 	"sort"
 	"strconv"
@@ -458,7 +460,7 @@ func watchCase(limit time.Duration, abort func()) (disarm func()) {
 				time.Sleep(time.Second)
 				watchdog.mu.Lock()
 				f := watchdog.abort
-				late := f != nil && time.Since(watchdog.start) > watchdog.limit
+				late := f != nil && time.Since(watchdog.start) > watchdog.limit && time.Since(watchdog.start) > time.Duration(float64(watchdog.limit)*Slack())
 				if late {
 					watchdog.abort = nil
 				}
@@ -652,6 +654,37 @@ func Errf(format string, a ...any) error {
 	return fmt.Errorf(format, a...)
 }
 
+// Slack is the factor by which every wall-clock limit of the harness is stretched on a machine that runs more
+// processes than it has cores: max(1, 2 x one-minute load average / number of CPUs). A limit is there to catch a
+// computation that does not end or a party that is never served - not a process that was not given the CPU. At a load of
+// up to half the cores the factor is 1; a check run alone on an otherwise idle machine (load about equal to the cores)
+// has about 2; eight runnable processes per core give 16. Stretching can only delay a report, never cause one.
+func Slack() float64 {
+	b, err := os.ReadFile("/proc/loadavg")
+	if err != nil {
+		return 1
+	}
+	var load float64
+	if _, err := fmt.Sscanf(string(b), "%f", &load); err != nil {
+		return 1
+	}
+	return math.Max(1, 2*load/float64(runtime.NumCPU()))
+}
+
+// After is time.After with the limit stretched by Slack, which is looked at again whenever the limit seems to have passed.
+func After(d time.Duration) <-chan time.Time {
+	ch := make(chan time.Time, 1)
+	start := time.Now()
+	go func() {
+		time.Sleep(d)
+		for time.Since(start) < time.Duration(float64(d)*Slack()) {
+			time.Sleep(time.Second)
+		}
+		ch <- time.Now()
+	}()
+	return ch
+}
+
 // WithDeadline runs f in a goroutine of its own and reports whether it returned within d.
 // A panic inside f is returned as an error.
 func WithDeadline(d time.Duration, f func()) (finished bool, err error) {
@@ -669,7 +702,7 @@ func WithDeadline(d time.Duration, f func()) (finished bool, err error) {
 	select {
 	case e := <-done:
 		return true, e
-	case <-time.After(d):
+	case <-After(d):
 		return false, nil
 	}
 }
@@ -1084,7 +1117,7 @@ func RunInChild[C any](s *Sub[C], c C, limit time.Duration, memMB int) ChildResu
 	path := filepath.Join(dir, fmt.Sprintf("child-%s-%d.json", s.Name, time.Now().UnixNano()))
 	writeCase(path, s.Name, c, "")
 	defer os.Remove(path)
-	cmdline := fmt.Sprintf("exec %q -test.run '^TestReplay$' -test.timeout %ds", os.Args[0], int(limit.Seconds())+30)
+	cmdline := fmt.Sprintf("exec %q -test.run '^TestReplay$' -test.timeout %ds", os.Args[0], int(limit.Seconds()*math.Max(Slack(), 1)*2)+60)
 	if memMB > 0 {
 		cmdline = fmt.Sprintf("ulimit -v %d; %s", memMB*1024, cmdline)
 	}
@@ -1100,7 +1133,7 @@ func RunInChild[C any](s *Sub[C], c C, limit time.Duration, memMB int) ChildResu
 	go func() { done <- cmd.Wait() }()
 	select {
 	case <-done:
-	case <-time.After(limit):
+	case <-After(limit):
 		_ = syscall.Kill(-cmd.Process.Pid, syscall.SIGKILL)
 		<-done
 		return ChildResult{"timeout", tail(out.String(), 3000)}
